@@ -19,7 +19,9 @@ fi
 if ! go1.26 test -tags verif -c -o bin/watchmc.test ./watchmc 2>bin/build_c20.log; then
   echo "BUILD FAILED:" >&2; cat bin/build_c20.log >&2; exit 2
 fi
-VERIF_C20_RACE=$race VERIF_ROOT=$PWD ./bin/watchmc.test -test.run 'TestC20$' -test.count=1 -test.timeout 40m 2>bin/c20.stderr | grep -v -e '^--- ' -e '^FAIL' -e '^PASS' -e '^ok'
+VERIF_C20_BIN=$PWD/bin VERIF_C20_RACE=$race VERIF_ROOT=${VERIF_ROOT:-$PWD} ./bin/watchmc.test -test.run 'TestC20$' -test.count=1 -test.timeout 40m 2>bin/c20.stderr | grep -v -e '^--- ' -e '^FAIL' -e '^PASS' -e '^ok'
 if [ -f bin/c20.exit ]; then exit "$(cat bin/c20.exit)"; fi
-echo "C20 harness did not finish:" >&2; tail -30 bin/c20.stderr >&2
-exit 2
+# the test binary died: if it died inside the watch code this is a finding, not a harness failure
+go build -tags verif -o bin/check ./cmd/check 2>/dev/null
+./bin/check c20crash bin/c20.stderr
+exit $?
